@@ -28,7 +28,7 @@ structure Main (s : St) : Prop where
       s.pending = [] ∧ pos ≤ s.vSending.start ∧ s.vSending.start ≤ s.put ∧
       s.out = s.recv ++ (s.v.drop pos).take (s.vSending.start - pos) ∧ s.lastSeen = some (some pos)
   ended : s.outSt = .endedOk → EndOk s
-  byp : s.canStartBypass = true → s.consumed = 0 ∧ s.answer = .none ∧ s.out = [] ∧ s.head ≠ .virginClone
+  byp : s.canStartBypass = true → s.consumed = 0 ∧ s.answer ≠ .forward ∧ s.out = [] ∧ s.head ≠ .virginClone
   sendV : s.sending = .virgin → s.head = .virginClone ∨ (s.head = .adapted ∧ s.uob.isSome = true)
   taken_le : s.outTaken ≤ s.out.length
   pipeEnded : (s.outSt = .endedOk ∨ s.outSt = .aborted) → s.vSending.st = .disabled
